@@ -149,6 +149,11 @@ func runCodec(c *engine.Chooser, tag string, k codec) {
 func rtRLWE(c *engine.Chooser, tag string, l lit, p rlwe.Parameters) {
 	user := l.rl
 	user.NTTFlag = true
+	sch := "rlwe"
+	if user.LogNthRoot != 0 {
+		// input class of the defect "rlwe.ParametersLiteral.UnmarshalJSON has no LogNthRoot field" (FINDINGS.md)
+		sch = "rlwe@literal-with-LogNthRoot"
+	}
 	runCodec(c, tag, codec{
 		scheme:      sch,
 		equal:       func(o interface{}) bool { q := o.(rlwe.Parameters); return p.Equal(&q) && q.Equal(&p) },
